@@ -9,10 +9,16 @@
 EXTENDS J_Struct2
 
 \* C14 lifecycle on any Build result
+HasStab(r) == "stab" \in DOMAIN r /\ r.stab.done
 LifecycleT(r, cls, timeOK) ==
   << R("C14", "constructor_ok_implies_validate_ok", r.ok /\ r.hasvalid /\ timeOK, r.validok, cls),
      R("C14", "valid_value_round_trips", r.ok /\ r.hasvalid /\ r.validok /\ r.rt.done,
-       r.serok /\ r.rt.ok /\ r.rt.remlen = 0 /\ r.rt.same, cls) >>
+       r.serok /\ r.rt.ok /\ r.rt.remlen = 0 /\ r.rt.same, cls),
+     \* a constructed value is a value like a parsed one: asking it everything (all read-only methods, two passes) neither changes
+     \* what it answers nor what it serialises to
+     R("C14", "constructed_value_serialises_the_same_after_queries", r.ok /\ r.serok /\ HasStab(r) /\ r.stab.reser, r.stab.ser2 = r.ser, cls),
+     R("C02", "constructed_value_accessors_stable_under_queries", r.ok /\ HasStab(r), Len(r.stab.unstable) = 0, cls),
+     R("C07", "constructed_hash_and_address_queries_stable", r.ok /\ HasStab(r), \A i \in 1..Len(r.stab.unstable) : r.stab.unstable[i] \notin HashQueries, cls) >>
 Lifecycle(r, cls) == LifecycleT(r, cls, TRUE)
 \* Lease.Validate / Lease2.Validate consult the clock: only leases that end after 2097 (0xF0000000 s) are judged
 FarFuture(sec) == ~LtBE(sec, << 240, 0, 0, 0 >>)
